@@ -217,6 +217,14 @@ func conn(args []string) string {
 				return "bad-op"
 			}
 			err = wpc.WritePacket2(uint32(t), b1, b2, 0)
+		case f[0] == "r" && len(f) == 2:
+			b, ok := unhex(f[1])
+			if !ok {
+				return "bad-op"
+			}
+			if e := rpc.VerifRawWrite(wpc, b); e != nil {
+				return "flush-error"
+			}
 		case f[0] == "f" && len(f) == 1:
 			if e := wpc.Flush(); e != nil {
 				return "flush-error"
@@ -284,9 +292,22 @@ func conn(args []string) string {
 		return "bad-op"
 	}
 	// ---- reader
-	rc := &memConn{chunks: chunkBy(sizes, got)}
+	rres := readAll(chunkBy(sizes, got), n0, uint32(pr), cc != 0, sched, rb, wb)
+	if !strings.HasPrefix(rres, "r=") {
+		return rres
+	}
+	we := "-"
+	if len(werrs) > 0 {
+		we = strings.Join(werrs, ",")
+	}
+	return fmt.Sprintf("wire=%s w=%s %s", hx(wire), we, rres)
+}
+
+// readAll: a fresh reading end on a connection that delivers `chunks`; mode changes applied at their packet counts
+func readAll(chunks [][]byte, n0 int64, proto uint32, crcc bool, sched []modeOp, rb, wb int) string {
+	rc := &memConn{chunks: chunks}
 	rpcn := rpc.NewPacketConn(rc, rb, wb)
-	rpc.VerifInject(rpcn, n0, uint32(pr), cc != 0)
+	rpc.VerifInject(rpcn, n0, proto, crcc)
 	var evs []string
 	var body []byte
 	for {
@@ -308,11 +329,76 @@ func conn(args []string) string {
 		}
 		evs = append(evs, fmt.Sprintf("p:%08x:%s", tip, hx(body)))
 	}
-	we := "-"
-	if len(werrs) > 0 {
-		we = strings.Join(werrs, ",")
+	return fmt.Sprintf("r=%s pong=%s", strings.Join(evs, ","), hx(rc.wrote))
+}
+
+func parseSizes(s string) []int {
+	var sizes []int
+	for _, x := range strings.Split(s, ",") {
+		v, err := strconv.Atoi(x)
+		if err != nil || v <= 0 {
+			return nil
+		}
+		sizes = append(sizes, v)
 	}
-	return fmt.Sprintf("wire=%s w=%s r=%s pong=%s", hx(wire), we, strings.Join(evs, ","), hx(rc.wrote))
+	return sizes
+}
+
+func readOnly(args []string) string {
+	st := strings.Split(args[0], ":")
+	if len(st) != 3 {
+		return "bad-op"
+	}
+	n0, e1 := strconv.ParseInt(st[0], 10, 62)
+	pr, e2 := strconv.ParseUint(st[1], 10, 32)
+	cc, e3 := strconv.ParseUint(st[2], 10, 8)
+	rb, e4 := strconv.Atoi(args[4])
+	stream, ok := unhex(args[2])
+	sizes := parseSizes(args[3])
+	if e1 != nil || e2 != nil || e3 != nil || e4 != nil || !ok || sizes == nil {
+		return "bad-op"
+	}
+	var sched []modeOp
+	if args[1] != "-" {
+		for _, o := range strings.Split(args[1], ",") {
+			f := strings.Split(o, ":")
+			switch {
+			case f[0] == "c" && len(f) == 1:
+				sched = append(sched, modeOp{at: n0, kind: 'c'})
+			case f[0] == "e" && len(f) == 3:
+				k, ok1 := unhex(f[1])
+				iv, ok2 := unhex(f[2])
+				if !ok1 || !ok2 || len(k) != 32 || len(iv) != 16 {
+					return "bad-op"
+				}
+				sched = append(sched, modeOp{at: n0, kind: 'e', key: k, iv: iv})
+			case len(f) == 1 && strings.HasPrefix(f[0], "v"):
+				v, e := strconv.ParseUint(f[0][1:], 10, 32)
+				if e != nil {
+					return "bad-op"
+				}
+				sched = append(sched, modeOp{at: n0, kind: 'v', v: uint32(v)})
+			default:
+				return "bad-op"
+			}
+		}
+	}
+	return readAll(chunkBy(sizes, stream), n0, uint32(pr), cc != 0, sched, rb, 4096)
+}
+
+func wlen(args []string) string {
+	pr, e1 := strconv.ParseUint(args[0], 10, 32)
+	l, e2 := strconv.ParseInt(args[1], 10, 62)
+	if e1 != nil || e2 != nil {
+		return "bad-op"
+	}
+	wc := &memConn{}
+	pc := rpc.NewPacketConn(wc, 64, 64)
+	rpc.VerifInject(pc, 2, uint32(pr), false)
+	if err := pc.WritePacketHeaderUnlocked(0x12345678, int(l), 0); err != nil {
+		return "err " + werrName(err)
+	}
+	return "ok"
 }
 
 func handle(line string) (res string) {
@@ -329,6 +415,10 @@ func handle(line string) (res string) {
 	switch {
 	case op == "packet.conn" && len(args) == 6:
 		return conn(args)
+	case op == "packet.read" && len(args) == 5:
+		return readOnly(args)
+	case op == "packet.wlen" && len(args) == 2:
+		return wlen(args)
 	}
 	return "bad-op"
 }
